@@ -93,6 +93,8 @@ def run(prop, tier, seed, t0, replay):
         lib, harness = parse_tsan(err)
         obs["tsan_reports_in_library"] += len(lib)
         obs["tsan_reports_in_harness"] += len(harness)
+        for h in harness[:2]:
+            print("note: ThreadSanitizer report outside library code (harness):\n" + h)
         seen = set()
         for key, text in lib:
             if key in seen:
@@ -118,6 +120,8 @@ def run(prop, tier, seed, t0, replay):
     wlib, wharness = parse_tsan(werr)
     obs["tsan_reports_in_library"] += len(wlib)
     obs["tsan_reports_in_harness"] += len(wharness)
+    for h in wharness[:2]:
+        print("note: ThreadSanitizer report outside library code (Windows stub harness):\n" + h)
     seen = set()
     for key, text in wlib:
         if key not in seen:
